@@ -384,6 +384,7 @@ GENERAL = {
     "M": "(general) memo keys: wherever a computation is skipped because a key was seen before (dict / set / attribute used as a memo), every input of the skipped computation that can vary during the memo's lifetime is determined by the key",
     "O": "(general) every metamodel option is stored verbatim from the constructor parameter of the same name and read under that name",
     "P": "(general) navigation through an attribute named at run time (RREL steps, dotted paths): every use of getattr(obj, name)'s value lies where needs_to_be_resolved(obj, name) is known false",
+    "F": "(general) pass-through parameters: a function that takes a parameter p (or **kwargs) and calls a function or class of the code base that takes p (or **kwargs) hands it on, by keyword, position or **kwargs (two reasoned exceptions)",
     "V": "(general) record classes on this property's path (ObjCrossRef, RefRulePosition, TextXError and its subclasses) store every constructor parameter under its own name and unchanged; exception subclasses hand every location field to the base constructor under the base's name",
     "S": "(general) objects built per occurrence by the grammar / RREL compilers (parsing expressions, RREL nodes, scope providers) are never shallow-copied and never handed out again from a cache (no setdefault interning, no dict or class-attribute store of a freshly built one that is read back)",
 }
